@@ -39,6 +39,7 @@ NULLS = [
     (2147483647.0, ["2147483647", "2147483647.0", "2.147483647e9"], ["2147483647", "2147483647.00"], ["2147483648", "2147480000"]),
 ]
 QUICK_NULLS = [0, 1, 6]
+FMT_VARIANTS = [{"fmt": "%+.3f"}, {"fmt": "%012.4f"}, {"column_fmt": {1: "%+.2f", 2: "% .3f"}}, {"fmt": "%-12.3f"}, {"fmt": "%.3e"}]
 ORD = ["1.5", "12", "7.25", "3", "44.5", "6"]
 KINDS = "NMno"  # N: null plain, M: null other spelling, n: near, o: ordinary
 PLACEMENTS = ["".join(p) for p in itertools.product(KINDS, repeat=6)]
@@ -76,6 +77,14 @@ def points(tier):
             for eng in ("numpy", "normal"):
                 for pl in PLACEMENTS[::7]:
                     pts.append([0, 0, "2x3", "NO", False, pol, eng, pl] + extra)
+    # a literal NaN token already present in the file, in the same column as NULL-equal samples (one cell of the second
+    # or third column replaced, every placement of the other cells)
+    for nv in (0, 1):
+        for lit in (4, 5, 1):
+            for eng in ("numpy", "normal"):
+                for wrap in ("NO", "YES"):
+                    for pl in PLACEMENTS[::3] if wrap == "NO" else PLACEMENTS[::9]:
+                        pts.append([nv, 0, "2x3", wrap, False, "strict", eng, pl, "all", False, lit])
     for alt in ([0, 1, "2x3", "NO", False], [0, 2, "2x3", "NO", False], [0, 0, "3x2", "NO", False],
                 [0, 0, "2x3", "YES", False], [0, 0, "2x3", "NO", True], [1, 1, "3x2", "YES", True], [7, 2, "2x3", "NO", False],
                 [2, 1, "2x3", "NO", False]):
@@ -88,6 +97,7 @@ def points(tier):
 def build(pt):
     nv, hs, shape, wrap, text, pol, eng, pl = pt[:8]
     declared = pt[8] if len(pt) > 8 else "all"
+    lit = pt[10] if len(pt) > 10 else None
     nullv, hsp, dsp, near = NULLS[nv]
     r, c = (2, 3) if shape == "2x3" else (3, 2)
     toks, kinds = [], []
@@ -104,6 +114,9 @@ def build(pt):
                 t = near[(i + j) % 2]
             else:
                 t = ORD[k]
+            if lit is not None and k == lit:
+                t = ("NaN", "nan", "NAN")[(i + j) % 3]
+                kind = "L"
             row.append(t)
             krow.append(kind)
             k += 1
@@ -139,7 +152,7 @@ def check_point(pt):
 
     def V(clause, expected, observed, sig=None):
         return {"clause": clause, "sig": sig or "%s:null=%s:%s" % (pol, NULLS[nv][0], "wrap" if wrap == "YES" else "nowrap") + (":text" if text else "")
-                + (":declared=%s" % pt[8] if len(pt) > 8 and pt[8] != "all" else "") + (":keep-numpy" if keep_numpy else ""),
+                + (":declared=%s" % pt[8] if len(pt) > 8 and pt[8] != "all" else "") + (":keep-numpy" if keep_numpy else "") + (":literal-nan" if len(pt) > 10 and pt[10] is not None else ""),
                 "witness": {"point": pt, "text": textfile},
                 "expected": expected, "observed": observed, "size": len(textfile) + 10 * sum(k != "o" for k in pl),
                 "repro": "import lasio; print(lasio.read(%r, engine=%r, null_policy=%r, **%r).data)" % (textfile, eng, pol, rkw)}
@@ -156,7 +169,7 @@ def check_point(pt):
     for i in range(r):
         for j in range(c):
             col = np.asarray(cur[j].data)
-            want_nan = (j != 0) and kinds[i][j] in "NM" and pol == "strict"
+            want_nan = ((j != 0) and kinds[i][j] in "NM" and pol == "strict") or kinds[i][j] == "L"
             exp_mask[i, j] = want_nan
             try:
                 got = float(col[i])
@@ -198,6 +211,32 @@ def check_point(pt):
         vio.append(V("roundtrip-nan-mask", "comparable curves", repr(e)))
     if vio or text:
         return vio, nontriv, "ok", {}, evals
+    # every NaN is EMITTED as the NULL value whatever numeric format is chosen (sign / zero-fill flags, per-column formats):
+    # read the output back with null_policy='none' - the NaN cells must hold the NULL value, never a NaN token
+    if pol == "strict":
+        var = FMT_VARIANTS[PLACEMENTS.index(pl) % len(FMT_VARIANTS)]
+        try:
+            s = io.StringIO()
+            las.write(s, **var)
+            lasn = lasio.read(s.getvalue(), null_policy="none")
+            evals += 2
+            cn = list(lasn.curves)
+            for j in range(1, c):
+                for i in range(r):
+                    if _isnan(c1[j].data[i]):
+                        try:
+                            got = float(cn[j].data[i])
+                        except Exception:
+                            got = repr(cn[j].data[i])
+                        if not (isinstance(got, float) and abs(got - nullv) <= 1e-9 * max(1.0, abs(nullv))):
+                            vio.append(V("nan-not-emitted-as-null", {"cell": [i, j], "options": repr(var), "NULL": nullv}, got))
+                            break
+                if vio:
+                    break
+        except Exception as e:
+            vio.append(V("formatted-write-raises", "write(%r)+read succeed" % (var,), "%s: %s" % (type(e).__name__, str(e)[:150])))
+        if vio:
+            return vio, nontriv, "ok", {}, evals
     # second write after in-place edits that add and remove NaNs (the object has been written once already)
     try:
         cl = list(las.curves)
